@@ -240,6 +240,61 @@ func c05Messages(r *rand.Rand, i int) []hostileMsg {
 				}
 			}
 		}
+		// sequence headers whose SPS announces huge counts and then ends: every loop the parser runs
+		// "as often as the SPS says" must be bounded by what the SPS holds
+		for _, huge := range []uint64{1 << 16, 1 << 24, 1<<32 - 2} {
+			for variant := 0; variant < 6; variant++ {
+				w := &bitW{}
+				w.u(8, 0x67)
+				w.u(8, []uint64{66, 100, 66, 77, 100, 66}[variant]) // profile_idc
+				w.u(8, 0)
+				w.u(8, 30)
+				w.ue(0) // sps id
+				if variant == 1 || variant == 4 {
+					w.ue(1) // chroma_format_idc
+					w.ue(0)
+					w.ue(0)
+					w.u(1, 0)
+					if variant == 4 {
+						w.u(1, 1) // seq_scaling_matrix_present: 8 lists follow
+						for k := 0; k < 8; k++ {
+							w.u(1, 1)
+							w.se(int64(huge % 1000))
+						}
+					} else {
+						w.u(1, 0)
+					}
+				}
+				w.ue(0) // log2_max_frame_num_minus4
+				switch variant {
+				case 0, 1: // pic_order_cnt_type 1 with a huge reference cycle
+					w.ue(1)
+					w.u(1, 0)
+					w.se(0)
+					w.se(0)
+					w.ue(huge)
+				case 2: // huge log2_max_pic_order_cnt
+					w.ue(0)
+					w.ue(huge)
+				case 3: // huge max_num_ref_frames, then huge dimensions
+					w.ue(2)
+					w.ue(huge)
+					w.u(1, 0)
+					w.ue(huge)
+					w.ue(huge)
+				default:
+					w.ue(huge) // pic_order_cnt_type itself
+				}
+				sps := append([]byte(nil), w.b...)
+				for _, tail := range [][]byte{nil, {0x80}, randBytes(6)} {
+					sp := append(append([]byte(nil), sps...), tail...)
+					p := []byte{0x17, 0, 0, 0, 0, 1, sp[1], sp[2], sp[3], 0xff, 0xe1, byte(len(sp) >> 8), byte(len(sp))}
+					p = append(p, sp...)
+					p = append(p, 1, 0, 4, 0x68, 0xce, 0x3c, 0x80)
+					add("sps-huge-counts", 9, p)
+				}
+			}
+		}
 	case 4:
 		// unknown codec ids, metadata that is not AMF, big random payloads
 		for id := 0; id < 16; id++ {
@@ -427,7 +482,7 @@ func init() {
 		ID:          "C05",
 		NumCases:    func(tier string, seed int64) int { return c05Sizes(tier) },
 		CaseTimeout: func(string) time.Duration { return 10 * time.Minute },
-		Rule: "one sub-input = one well-framed audio/video/metadata message with a hostile payload sent by an accepted reference publisher to the whole in-process server under one of 8 output configurations (all outputs, gop 0/1/2, dummy audio, single outputs, merge write): all 256 one-byte payloads × audio/video, 2..12-byte payloads over the codec-relevant first bytes × packet types, AVC/HEVC(classic+enhanced)/AAC sequence headers truncated at every offset and with corrupted inner lengths, all 2-byte ASCs, enhanced-RTMP headers with other fourccs, NAL length fields that lie (0, beyond the end, 2^31, 2^32−1), zero-length NALs, unknown codec ids, non-AMF metadata, large random payloads, extreme and backward timestamps, bit-flipped valid frames, codec switches mid-stream, metadata nested up to the 16 MiB message limit, and whole side sessions of well-formed messages in unusual orders (long audio run before the first key frame, inter frames before any key frame, late video, late audio, frames before headers, timestamps that stand still, single-media streams of 3–4 messages, headers only) × AVC / HEVC / enhanced HEVC. honest tiny NAL units of every H.264/H.265 type code incl. the RTP aggregation/fragmentation codes; RTMP/FLV/TS joiners attach between messages, RTSP (TCP and UDP) subscribers re-join mid-GOP every 10 messages so that the wait-for-key-frame path inspects the hostile NALs. " +
+		Rule: "one sub-input = one well-framed audio/video/metadata message with a hostile payload sent by an accepted reference publisher to the whole in-process server under one of 8 output configurations (all outputs, gop 0/1/2, dummy audio, single outputs, merge write): all 256 one-byte payloads × audio/video, 2..12-byte payloads over the codec-relevant first bytes × packet types, AVC/HEVC(classic+enhanced)/AAC sequence headers truncated at every offset and with corrupted inner lengths, all 2-byte ASCs, enhanced-RTMP headers with other fourccs, AVC sequence headers whose SPS announces huge counts (reference cycle, scaling lists, dimensions) and then ends, NAL length fields that lie (0, beyond the end, 2^31, 2^32−1), zero-length NALs, unknown codec ids, non-AMF metadata, large random payloads, extreme and backward timestamps, bit-flipped valid frames, codec switches mid-stream, metadata nested up to the 16 MiB message limit, and whole side sessions of well-formed messages in unusual orders (long audio run before the first key frame, inter frames before any key frame, late video, late audio, frames before headers, timestamps that stand still, single-media streams of 3–4 messages, headers only) × AVC / HEVC / enhanced HEVC. honest tiny NAL units of every H.264/H.265 type code incl. the RTP aggregation/fragmentation codes; RTMP/FLV/TS joiners attach between messages, RTSP (TCP and UDP) subscribers re-join mid-GOP every 10 messages so that the wait-for-key-frame path inspects the hostile NALs. " +
 			"monitors: process liveness (crash signature = panic text + innermost lal frame; driver resumes after the crashing message), a marker frame after each hostile message must reach a pre-attached FLV witness (else, with the publisher connection still open, the stream is stalled), amplification counter (tags delivered between consecutive markers), canary stream on another name after each case. cell = config cell × input class.",
 		Assumptions: []string{"lal closing the publisher's connection on an uninterpretable payload is allowed (the case reconnects)", "amplification bound: 8 + size/100 deliveries per input message, or 10 000 when dummy audio is on (intended gap filling)"},
 		MinCells: 20,
